@@ -9,7 +9,7 @@ from typing import Any, Iterator
 from jinja2 import nodes
 
 from .. import tplq
-from ..astutil import Locals, call_name, calls_in, constructs_error, names_in, norm, region, stmt_of, where
+from ..astutil import Locals, call_name, calls_in, constructs_error, error_names, names_in, norm, region, stmt_of, terminals, where
 from ..cfg import CFG
 from ..core import PKG, Report
 from ..jinja_interp import expr_text
@@ -17,7 +17,8 @@ from ..skeleton import SkelWalker, to_lines
 from ..skelscan import HOLE, OPQ
 
 LEVEL = ("structural clauses (the bytes httpx sends are not decided): wire names as keys in string context and python names as "
-         "values for header/cookie/query; path placeholders rewritten and formatted over the same collection; generated locals "
+         "values for header/cookie/query; path placeholders rewritten (braces included) and formatted over the same collection, a mismatch "
+         "between path template and path parameters can only end in an error; generated locals "
          "defined under guards implied by every use (truth tables); body-type table exhaustive and consistent with httpx keyword "
          "names, Content-Type from the document's own key; optional arguments guarded; header values converted to str for every "
          "non-str kind allowed in headers; the query filter drops UNSET and nothing but UNSET / None; sync/async variants equal as token "
@@ -47,11 +48,19 @@ def _coll_key(atom: str) -> str | None:
 def _implication_counterexample(use: Any, definition: Any) -> dict | None:
     """an assignment under which `use` is emitted but `definition` is not; collection lengths are modelled as integers 0..2
     so that `|length > 1`, `|length == 1`, `|length > 0` and plain truthiness of the same collection stay consistent"""
+    for ln, env in _models(use, definition):
+        if _holds(use, env, ln) and not _holds(definition, env, ln):
+            return {**{f"len({k})": v for k, v in ln.items()}, **{k: v for k, v in env.items() if not _len_key(k) and not _coll_key(k)}}
+    return None
+
+
+def _models(*frs: Any) -> Iterator[tuple[dict, dict]]:
+    """the assignments (collection lengths, truth values of all guard atoms) of the guards of several fragments taken together"""
     import itertools
 
-    atoms_u, atoms_d = tplq.guard_atoms(use), tplq.guard_atoms(definition)
-    atoms = sorted(set(atoms_u) | set(atoms_d))
-    colls = sorted({_len_key(a)[0] for a in atoms if _len_key(a)} | {_coll_key(a) for a in atoms if _coll_key(a)})
+    atoms = sorted({a for f in frs for a in tplq.guard_atoms(f)})
+    colls = sorted({_len_key(a)[0] for a in atoms if _len_key(a)} | {_coll_key(a) for a in atoms if _coll_key(a)}
+                   | {_coll_key(l) for f in frs for l in f.loops if _coll_key(l)})
     free = [a for a in atoms if not _len_key(a) and not _coll_key(a)]
     ops = {"gt": lambda x, k: x > k, "ge": lambda x, k: x >= k, "eq": lambda x, k: x == k, "ne": lambda x, k: x != k,
            "lt": lambda x, k: x < k, "le": lambda x, k: x <= k}
@@ -65,9 +74,207 @@ def _implication_counterexample(use: Any, definition: Any) -> dict | None:
                     env[a] = ops[lk[1]](ln[lk[0]], lk[2])
                 elif _coll_key(a):
                     env[a] = ln[_coll_key(a)] > 0
-            if tplq.guard_holds(use, {k: env[k] for k in atoms_u}) and not tplq.guard_holds(definition, {k: env[k] for k in atoms_d}):
-                return {**{f"len({k})": v for k, v in ln.items()}, **{k: env[k] for k in free}}
-    return None
+            yield ln, env
+
+
+def _holds(fr: Any, env: dict, ln: dict) -> bool:
+    """the fragment is written under the assignment: its guards hold and the collections it is in a loop over are not empty"""
+    return tplq.guard_holds(fr, {k: env[k] for k in tplq.guard_atoms(fr)}) and all(ln[_coll_key(l)] > 0 for l in fr.loops if _coll_key(l))
+
+
+# ---- one path through a macro -----------------------------------------------------------------------------------------------
+# What a macro writes is decided per path, not per source fragment: `{% if c %}A{% else %}B{% endif %}`, `{{ "A" if c else "B" }}`,
+# a `set` variable holding either text, and a helper macro returning it all write the same thing.  A path is an assignment of the
+# atoms of the tests met on the way; the rendering of a path is a sequence of literal text and holes (expressions without a value).
+
+
+class _NeedAtom(Exception):
+    def __init__(self, atom: str):
+        super().__init__(atom)
+        self.atom = atom
+
+
+class _Piece:
+    __slots__ = ("kind", "text", "node", "args")
+
+    def __init__(self, kind: str, text: str, node: Any = None, args: tuple = ()):
+        self.kind = kind      # t: literal text | h: hole
+        self.text = text      # the text, or the (canonical) text of the expression
+        self.node = node      # the expression (holes), the constant (text written from a non-string constant)
+        self.args = args      # holes that are calls: the pieces of every argument
+
+    def __repr__(self) -> str:
+        return self.text if self.kind == "t" else "‹" + self.text + "›"
+
+
+class _Path:
+    """renders the body of a macro of template `ti` under `env` (atom -> truth value); `known(test, text_of)` may decide a test from
+    facts of its own (None: not decided).  A test whose atom is not in env raises _NeedAtom: see _paths."""
+
+    PASS_FILTERS = ("indent", "trim", "safe", "string")
+
+    def __init__(self, ti: Any, env: dict[str, bool], known: Any = None, max_depth: int = 4):
+        self.ti = ti
+        self.env = env
+        self.known = known
+        self.max_depth = max_depth
+        self.stack: list[str] = []
+
+    # -- texts ---------------------------------------------------------------------------------------------------------------
+    def text_of(self, e: nodes.Node, vars_: dict, subst: dict[str, str], flat: bool = False) -> str:
+        """canonical text of an expression; the parameters of an inlined macro read as what the call site passed (an expression, or
+        the literal text).  flat (the atoms of tests): grouping parentheses dropped - a `set` variable reads as its parenthesised
+        definition"""
+        t = expr_text(e)
+        lits = {n: repr("".join(p.text for p in ps)) for n, ps in vars_.items() if ps and all(p.kind == "t" and p.node is None for p in ps)}
+        for p, a in {**lits, **subst}.items():
+            t = re.sub(rf"(?<![\w.'\"]){re.escape(p)}(?![\w'\"])", lambda _m, a=a: a, t)
+        return _flat(t) if flat else t
+
+    # -- tests ---------------------------------------------------------------------------------------------------------------
+    def decide(self, t: nodes.Node, vars_: dict, subst: dict) -> bool:
+        if isinstance(t, nodes.And):
+            return self.decide(t.left, vars_, subst) and self.decide(t.right, vars_, subst)
+        if isinstance(t, nodes.Or):
+            return self.decide(t.left, vars_, subst) or self.decide(t.right, vars_, subst)
+        if isinstance(t, nodes.Not):
+            return not self.decide(t.node, vars_, subst)
+        if isinstance(t, nodes.Const):
+            return bool(t.value)
+        if isinstance(t, nodes.Name) and t.name in vars_:
+            ps = vars_[t.name]
+            if all(p.kind == "t" for p in ps):
+                if len(ps) == 1 and isinstance(ps[0].node, nodes.Const):
+                    return bool(ps[0].node.value)
+                return bool("".join(p.text for p in ps))
+            if any(p.kind == "t" and p.text for p in ps):
+                return True       # a string with literal text in it is not empty
+            if len(ps) == 1:
+                # a local without a value: as true as the expression it was bound to (`set ok = not x` ... `if ok`)
+                if ps[0].node is not None and ps[0].node is not t:
+                    return self.decide(ps[0].node, vars_, subst)
+                return self.atom(_flat(ps[0].text))
+        if self.known is not None:
+            r = self.known(t, lambda e: self.text_of(e, vars_, subst, flat=True))
+            if r is not None:
+                return r
+        return self.atom(self.text_of(t, vars_, subst, flat=True))
+
+    def atom(self, a: str) -> bool:
+        if a not in self.env:
+            raise _NeedAtom(a)
+        return self.env[a]
+
+    # -- statements -----------------------------------------------------------------------------------------------------------
+    def block(self, body: list[nodes.Node], vars_: dict, subst: dict) -> list[_Piece]:
+        out: list[_Piece] = []
+        for n in body:
+            if isinstance(n, nodes.Output):
+                for c in n.nodes:
+                    out += self.expr(c, vars_, subst)
+            elif isinstance(n, nodes.If):
+                arms = [(n.test, n.body)] + [(el.test, el.body) for el in n.elif_]
+                for test, arm in arms:
+                    if self.decide(test, vars_, subst):
+                        out += self.block(arm, vars_, subst)
+                        break
+                else:
+                    out += self.block(n.else_, vars_, subst)
+            elif isinstance(n, nodes.For):
+                # one element (that passes the loop's filter)
+                out += self.block(n.body, dict(vars_), subst)
+            elif isinstance(n, nodes.Assign):
+                if isinstance(n.target, nodes.Name):
+                    vars_[n.target.name] = self.expr(n.node, vars_, subst)
+            elif isinstance(n, nodes.AssignBlock):
+                if isinstance(n.target, nodes.Name):
+                    vars_[n.target.name] = self.block(n.body, dict(vars_), subst)
+            elif isinstance(n, (nodes.With, nodes.Scope, nodes.CallBlock, nodes.FilterBlock)):
+                out += self.block(getattr(n, "body", []), dict(vars_), subst)
+        return out
+
+    # -- expressions ----------------------------------------------------------------------------------------------------------
+    def expr(self, e: nodes.Node, vars_: dict, subst: dict) -> list[_Piece]:
+        if isinstance(e, nodes.TemplateData):
+            return [_Piece("t", e.data)]
+        if isinstance(e, nodes.Const):
+            return [_Piece("t", e.value)] if isinstance(e.value, str) else [_Piece("t", str(e.value), e)]
+        if isinstance(e, nodes.Name) and e.name in vars_:
+            return list(vars_[e.name])
+        if isinstance(e, (nodes.Add, nodes.Concat)):
+            parts = [e.left, e.right] if isinstance(e, nodes.Add) else list(e.nodes)
+            ps = [p for x in parts for p in self.expr(x, vars_, subst)]
+            # a sum without any literal text in it (lists, numbers) is one value
+            return ps if any(p.kind == "t" for p in ps) else [_Piece("h", self.text_of(e, vars_, subst), e)]
+        if isinstance(e, nodes.CondExpr):
+            if self.decide(e.test, vars_, subst):
+                return self.expr(e.expr1, vars_, subst)
+            return self.expr(e.expr2, vars_, subst) if e.expr2 is not None else []
+        if isinstance(e, nodes.Filter) and e.node is not None and e.name in self.PASS_FILTERS:
+            return self.expr(e.node, vars_, subst)
+        if isinstance(e, nodes.Call):
+            m = self.ti.macros.get(e.node.name) if isinstance(e.node, nodes.Name) and e.node.name not in vars_ else None
+            if m is not None and e.node.name not in self.stack and len(self.stack) < self.max_depth:
+                return self.inline(m, e, vars_, subst)
+            args = tuple(self.expr(a, vars_, subst) for a in [*e.args, *[k.value for k in e.kwargs]])
+            return [_Piece("h", self.text_of(e, vars_, subst), e, args)]
+        return [_Piece("h", self.text_of(e, vars_, subst), e)]
+
+    def inline(self, m: nodes.Macro, call: nodes.Call, vars_: dict, subst: dict) -> list[_Piece]:
+        names = [a.name for a in m.args]
+        bound: dict[str, list[_Piece]] = {}
+        for a, d in zip(names[len(names) - len(m.defaults):], m.defaults):
+            bound[a] = self.expr(d, {}, {})
+        for nm, a in [*zip(names, call.args), *[(k.key, k.value) for k in call.kwargs if k.key in names]]:
+            bound[nm] = self.expr(a, vars_, subst)
+        vars2: dict[str, list[_Piece]] = {}
+        subst2: dict[str, str] = {}
+        for nm, ps in bound.items():
+            # an argument without a value here stays what the call site wrote (tests and holes of the callee then read like the
+            # caller's); text and mixtures are values of the parameter
+            if len(ps) == 1 and ps[0].kind == "h" and not ps[0].args:
+                subst2[nm] = ps[0].text
+            else:
+                # (the expressions behind the holes belong to the caller: the callee sees their texts)
+                vars2[nm] = [_Piece("h", p.text, None, p.args) if p.kind == "h" else p for p in ps]
+        self.stack.append(m.name)
+        try:
+            return self.block(m.body, vars2, subst2)
+        finally:
+            self.stack.pop()
+
+
+def _paths(ti: Any, macro: nodes.Macro, known: Any = None, limit: int = 512) -> list[tuple[dict[str, bool], list[_Piece]]]:
+    """every path through the macro (its own parameters without a value): [(atoms decided on the way, what is written)]"""
+    out = []
+    todo: list[dict[str, bool]] = [{}]
+    while todo:
+        env = todo.pop()
+        try:
+            out.append((env, _Path(ti, env, known).block(macro.body, {}, {})))
+        except _NeedAtom as need:
+            todo += [{**env, need.atom: True}, {**env, need.atom: False}]
+        if len(out) + len(todo) > limit:
+            raise RuntimeError(f"more than {limit} paths through {ti.name}::{macro.name}")
+    return out
+
+
+def _written(ps: list[_Piece]) -> str:
+    """the text of a path, every hole as one private-use character (no identifier, no punctuation)"""
+    return "".join(p.text if p.kind == "t" else HOLE for p in ps)
+
+
+def _annotation(line: str) -> str:
+    """`Union[A, B], rest` -> `Union[A, B]` (up to the first comma outside brackets)"""
+    depth = 0
+    for i, ch in enumerate(line):
+        if ch in "([{":
+            depth += 1
+        elif ch in ")]}":
+            depth -= 1
+        elif ch == "," and depth == 0:
+            return line[:i].strip()
+    return line.strip()
 
 
 def _comp_bound(e: ast.AST) -> set[str]:
@@ -78,6 +285,12 @@ def _comp_bound(e: ast.AST) -> set[str]:
 def _stmt_values(lc: Locals, name: str) -> list[ast.AST]:
     """what the statements of the function bind `name` to (comprehension variables of the same spelling are somebody else)"""
     return [v for _, st, v in lc.defs.get(name, []) if v is not None and not isinstance(st, ast.comprehension)]
+
+
+def _only_value(lc: Locals, name: str) -> ast.AST | None:
+    """the expression a local is bound to when it is bound exactly once, by a plain assignment"""
+    ds = lc.defs.get(name, [])
+    return ds[0][2] if len(ds) == 1 and ds[0][0] == "assign" else None
 
 
 def _sources(ix: Any, f: Any, e: ast.AST, stop: frozenset[str] = frozenset(), depth: int = 5) -> list[ast.AST]:
@@ -156,6 +369,125 @@ def _absence_value(e: ast.expr, v: str, unset: bool, none: bool) -> bool | None:
     return None
 
 
+def _str_pieces(e: ast.AST, lc: Locals, depth: int = 3) -> list | None:
+    """a string-building expression as literal text and values: f"{{{p.name}}}", "{" + p.name + "}", "{%s}" % p.name and a local bound
+    to any of these all read ["{", ("p.name",), "}"]; None when it is not such an expression"""
+    out: list = []
+
+    def add(x: Any) -> None:
+        if isinstance(x, str) and out and isinstance(out[-1], str):
+            out[-1] += x
+        elif x != "":
+            out.append(x)
+
+    def go(n: ast.AST, d: int) -> bool:
+        if isinstance(n, ast.Constant) and isinstance(n.value, str):
+            add(n.value)
+            return True
+        if isinstance(n, ast.JoinedStr):
+            for v in n.values:
+                if isinstance(v, ast.FormattedValue):
+                    if v.conversion != -1 or v.format_spec is not None:
+                        return False
+                    add((norm(v.value),))
+                elif not go(v, d):
+                    return False
+            return True
+        if isinstance(n, ast.BinOp) and isinstance(n.op, ast.Add):
+            return go(n.left, d) and go(n.right, d)
+        if isinstance(n, ast.BinOp) and isinstance(n.op, ast.Mod) and isinstance(n.left, ast.Constant) and isinstance(n.left.value, str):
+            vals = list(n.right.elts) if isinstance(n.right, ast.Tuple) else [n.right]
+            parts = re.split(r"%s", n.left.value)
+            if len(parts) != len(vals) + 1 or any("%" in x.replace("%%", "") for x in parts):
+                return False
+            for i, x in enumerate(parts):
+                add(x.replace("%%", "%"))
+                if i < len(vals):
+                    add((norm(vals[i]),))
+            return True
+        if isinstance(n, ast.Name) and d:
+            v = _only_value(lc, n.id)
+            if v is not None:
+                return go(v, d - 1)
+        if isinstance(n, (ast.Attribute, ast.Name)):
+            add((norm(n),))
+            return True
+        return False
+
+    return out if go(e, depth) else None
+
+
+def _security_truth(e: ast.expr, lc: Locals) -> bool | None:
+    """is the expression true exactly when `<x>.security` is a non-empty list?  Decided by evaluating it over None, [] and non-empty lists
+    when it is built from `.security`, bool / len, constants, not / and / or / if-else and comparisons alone (locals unfolded); None otherwise"""
+    import copy
+
+    class Unfold(ast.NodeTransformer):
+        def __init__(self) -> None:
+            self.depth = 0
+
+        def visit_Attribute(self, n: ast.Attribute) -> ast.AST:
+            if n.attr == "security" and isinstance(n.value, ast.Name):
+                return ast.Name(id="SECURITY", ctx=ast.Load())
+            return self.generic_visit(n)
+
+        def visit_Name(self, n: ast.Name) -> ast.AST:
+            v = _only_value(lc, n.id)
+            if v is not None and self.depth < 4:
+                self.depth += 1
+                try:
+                    return self.visit(copy.deepcopy(v))
+                finally:
+                    self.depth -= 1
+            return n
+
+    x = Unfold().visit(copy.deepcopy(e))
+    if not any(isinstance(n, ast.Name) and n.id == "SECURITY" for n in ast.walk(x)):
+        return None
+
+    class Unknown(Exception):
+        pass
+
+    import operator
+
+    cmp = {ast.Is: operator.is_, ast.IsNot: operator.is_not, ast.Eq: operator.eq, ast.NotEq: operator.ne, ast.Gt: operator.gt, ast.GtE: operator.ge,
+           ast.Lt: operator.lt, ast.LtE: operator.le}
+
+    def val(n: ast.AST, security: Any) -> Any:
+        if isinstance(n, ast.Constant):
+            return n.value
+        if isinstance(n, ast.Name) and n.id == "SECURITY":
+            return security
+        if isinstance(n, (ast.List, ast.Tuple)):
+            return [val(i, security) for i in n.elts]
+        if isinstance(n, ast.UnaryOp) and isinstance(n.op, ast.Not):
+            return not val(n.operand, security)
+        if isinstance(n, ast.BoolOp):
+            r = None
+            for v in n.values:
+                r = val(v, security)
+                if bool(r) != isinstance(n.op, ast.And):
+                    break
+            return r
+        if isinstance(n, ast.IfExp):
+            return val(n.body if val(n.test, security) else n.orelse, security)
+        if isinstance(n, ast.Compare) and len(n.ops) == 1 and type(n.ops[0]) in cmp:
+            return cmp[type(n.ops[0])](val(n.left, security), val(n.comparators[0], security))
+        if isinstance(n, ast.Call) and isinstance(n.func, ast.Name) and n.func.id in ("bool", "len") and len(n.args) == 1 and not n.keywords:
+            return (bool if n.func.id == "bool" else len)(val(n.args[0], security))
+        raise Unknown
+
+    for sample in (None, [], [{}], [{"scheme": []}], [{"a": []}, {"b": ["scope"]}]):
+        try:
+            if bool(val(x, sample)) != bool(sample):
+                return False
+        except Unknown:
+            return None
+        except TypeError:       # len(None), None > 0: the expression itself fails for an operation without `security`
+            return False
+    return True
+
+
 def _generated_class(jx: Any, template: str, cls: str) -> ast.ClassDef | None:
     """the class as the template writes it (skeleton: macros inlined with the arguments of their call sites, holes as placeholders)"""
     text = "\n".join(to_lines(SkelWalker(jx, frozenset()).walk_template(template))[0])
@@ -183,14 +515,17 @@ def run(rep: Report, ctx: Any) -> str:
     rep.rule("R03.1", "header, cookie and query stores use the wire name as key inside a \"...\" literal and the python name as value; path "
                       "placeholders are rewritten ({name}->{python_name}) and formatted over the same collection with python_name")
     rep.rule("R03.2", "definite assignment: the guard of every use of headers / cookies / params implies the guard of its definition")
-    rep.rule("R03.3", "BodyType members = branches of body_to_kwarg = httpx keyword names; every media-type branch assigns a member; "
-                      "Content-Type is set from body.content_type, which is the document's own key")
+    rep.rule("R03.3", "BodyType members = httpx keyword names; for a body of every member some path through body_to_kwarg assigns the destination; "
+                      "every media-type branch assigns a member; wherever the module serialises a body the result is stored under its "
+                      "body_type.value and Content-Type is written from its content_type (the document's own key) - except, and never, for "
+                      "the only body of an endpoint when it is multipart")
     rep.rule("R03.4", "optional arguments are not sent and set ones are: the query store is filtered, whenever it is built, by conditions "
                       "that drop UNSET and keep every value that is neither UNSET nor None; guarded_statement emits the statement without "
                       "its Unset test only for required properties (truth table); header stores go through guarded_statement")
     rep.rule("R03.5", "every property class that allows the header location and whose Python type is not str defines transform_header")
     rep.rule("R03.6", "sync_detailed/asyncio_detailed and sync/asyncio are equal as token streams modulo async/await and the client getter")
-    rep.rule("R03.7", "requires_security comes from the operation's security, selects AuthenticatedClient; in the AuthenticatedClient class as "
+    rep.rule("R03.7", "requires_security is true exactly when the operation's security is not empty; on every path through `arguments` taken "
+                      "for a secured operation the annotation of `client` is AuthenticatedClient; in the AuthenticatedClient class as "
                       "the template writes it, every construction of httpx.Client / httpx.AsyncClient is dominated by a store that overwrites "
                       "headers[self.auth_header_name] with a value read from self.token")
     rep.rule("R03.9", "parameter identity is (name, location): every comparison of the current parameter's name (or of a key built from it) in "
@@ -204,7 +539,7 @@ def run(rep: Report, ctx: Any) -> str:
         if e.template in ("endpoint_macros.py.jinja", "property_templates/helpers.jinja") and e.hole.endswith(".name") and \
                 re.fullmatch(r"(property|parameter|endpoint\.\w*parameters(\(\))?\[\*\]|\(endpoint\.list_all_parameters\(\)\)\[\*\])\.name", e.hole):
             sites.setdefault((e.template, e.macro, e.hole), set()).add(e.kind)
-    rep.floor("wire_name_sites", len(sites), 3)
+    rep.floor("wire_name_sites", len(sites), 2)
     for (tn, mn, hole), kinds in sorted(sites.items()):
         rep.check(all(k.endswith('STR1"') for k in kinds), "R03.1", f"{tn}::{mn}::{hole}", "a wire name is not emitted inside a \"...\" literal",
                   where=f"{PKG}/templates/{tn}", lhs=sorted(kinds), rhs='STR1"')
@@ -216,17 +551,25 @@ def run(rep: Report, ctx: Any) -> str:
     rep.require(hp, "header_params")
     # the statement handed to guarded_statement (third argument), whatever the template calls it: the text of its definition
     gcalls = [c for c in hp.find_all(nodes.Call) if expr_text(c.node) == "guarded_statement" and len(c.args) >= 3]
-    stm_txt = " ".join(expr_text(c.args[2]) for c in gcalls)
-    rep.check(bool(gcalls) and "endpoint.header_parameters[*].name" in stm_txt and "'headers[\"'" in stm_txt, "R03.1",
+    stm_txts = [expr_text(c.args[2]) for c in gcalls]
+    rep.check(bool(gcalls) and all("endpoint.header_parameters[*].name" in t and "'headers[\"'" in t for t in stm_txts), "R03.1",
               "endpoint_macros.py.jinja::header_params::keyed-by-wire-name", "headers are not keyed by the wire name", where=f"{PKG}/templates/{em.name}")
     sp = ix.func("Endpoint.sort_parameters")
-    # the loop variable may have any name: the rewrite is `endpoint.path.replace("{<p>.name}", "{<p>.python_name}")` inside a loop
-    # `for <p> in endpoint.path_parameters`
+    # the rewrite, wherever it lives (sort_parameters or a private helper of it) and however its strings are built: inside a loop
+    # `for <p> in endpoint.path_parameters`, a call <path>.replace(A, B) on endpoint.path (or a local holding it) where A is the text
+    # "{" <p>.name "}" and B the text "{" <p>.python_name "}" - braces included, or a name that is part of another one is rewritten too
     rewrites = []
-    for lp in [n for n in ast.walk(sp.node) if isinstance(n, ast.For) and norm(n.iter) == "endpoint.path_parameters"]:
-        pv = norm(lp.target)
-        want = f"endpoint.path.replace(f'{{{{{{{pv}.name}}}}}}', f'{{{{{{{pv}.python_name}}}}}}')"
-        rewrites += [c for c in ast.walk(lp) if isinstance(c, ast.Call) and norm(c) == want]
+    for g in region(ix, sp):
+        gl = Locals(g.node)
+        for lp in [n for n in ast.walk(g.node) if isinstance(n, ast.For) and norm(n.iter) == "endpoint.path_parameters"]:
+            pv = norm(lp.target)
+            for c in ast.walk(lp):
+                if not (isinstance(c, ast.Call) and isinstance(c.func, ast.Attribute) and c.func.attr == "replace" and len(c.args) == 2 and not c.keywords):
+                    continue
+                recv = c.func.value
+                on_path = norm(recv) == "endpoint.path" or (isinstance(recv, ast.Name) and any(norm(v).startswith("endpoint.path") for v in gl.values_of(recv.id)))
+                if on_path and _str_pieces(c.args[0], gl) == ["{", (f"{pv}.name",), "}"] and _str_pieces(c.args[1], gl) == ["{", (f"{pv}.python_name",), "}"]:
+                    rewrites.append(c)
     rep.check(bool(rewrites), "R03.1", "Endpoint.sort_parameters::placeholder-rewrite",
               "path placeholders are not rewritten from name to python_name over path_parameters", where(sp, sp.node))
     fmt_loops = [f for f in et.tree.find_all(nodes.For) if expr_text(f.iter) == "endpoint.path_parameters"]
@@ -234,19 +577,36 @@ def run(rep: Report, ctx: Any) -> str:
              for f in fmt_loops)
     rep.check(ok, "R03.1", "endpoint_module.py.jinja::format-over-path-parameters", ".format(...) keywords are not python_name over endpoint.path_parameters",
               where=f"{PKG}/templates/{et.name}")
-    lc = Locals(sp.node)
-    from_path = set(lc.bound_from(lambda v: v.startswith("re.findall(") and v.endswith("endpoint.path)"), "assign"))
+    # the names in the path template are compared with the names of the path parameters, and when they differ the function (or the private
+    # helper that compares) can only end in an error - whichever arm of the test that is, early return or nested
+    def _is_findall(v: str) -> bool:
+        return v.startswith("re.findall(") and v.endswith("endpoint.path)")
 
     def _names_list(e: ast.AST) -> bool:
         return (isinstance(e, ast.ListComp) and len(e.generators) == 1 and norm(e.generators[0].iter) == "endpoint.path_parameters"
                 and not e.generators[0].ifs and norm(e.elt) == f"{norm(e.generators[0].target)}.name")
 
-    diag = [n for n in ast.walk(sp.node) if isinstance(n, ast.If) and isinstance(n.test, ast.Compare) and len(n.test.ops) == 1
-            and isinstance(n.test.ops[0], ast.NotEq)
-            and any(isinstance(a, ast.Name) and a.id in from_path and _names_list(b)
-                    for a, b in ((n.test.left, n.test.comparators[0]), (n.test.comparators[0], n.test.left)))
-            and any(isinstance(r, ast.Return) and constructs_error(r.value) for r in n.body)]
-    rep.check(bool(diag), "R03.1", "Endpoint.sort_parameters::path-template-check",
+    diag = []
+    for g in region(ix, sp):
+        gl = Locals(g.node)
+        from_path = set(gl.bound_from(_is_findall, "assign"))
+        errs = error_names(g.node)
+        seen: list[ast.AST] = []
+
+        def mismatch(t: ast.expr, gl: Locals = gl, from_path: set = from_path, seen: list = seen) -> bool | None:
+            if isinstance(t, ast.Compare) and len(t.ops) == 1 and isinstance(t.ops[0], (ast.Eq, ast.NotEq)):
+                for a, b in ((t.left, t.comparators[0]), (t.comparators[0], t.left)):
+                    b = _only_value(gl, b.id) or b if isinstance(b, ast.Name) else b
+                    if ((isinstance(a, ast.Name) and a.id in from_path) or _is_findall(norm(a))) and _names_list(b):
+                        seen.append(t)
+                        return isinstance(t.ops[0], ast.NotEq)
+            return None
+
+        ends, falls = terminals(g.node.body, mismatch)
+        if seen:
+            diag.append(not falls and bool(ends) and all(isinstance(r, ast.Raise) or (isinstance(r, ast.Return) and (
+                constructs_error(r.value) or (isinstance(r.value, ast.Name) and r.value.id in errs))) for r in ends))
+    rep.check(bool(diag) and all(diag), "R03.1", "Endpoint.sort_parameters::path-template-check",
               "a mismatch between the path template and the path parameters is not diagnosed", where(sp, sp.node))
 
     # ---- R03.2 ---------------------------------------------------------------------------------------------------------
@@ -275,7 +635,7 @@ def run(rep: Report, ctx: Any) -> str:
             rep.check(bad is None, "R03.2", f"{var}::use[{u.text.strip().splitlines()[0][:40] if u.text.strip() else ''}]",
                       f"`{var}` can be used where it was never defined (e.g. {bad})",
                       where=f"{PKG}/templates/{et.name}:{u.line}", lhs=[g for g, _ in u.guards], rhs=[g for g, _ in dfr.guards])
-    rep.floor("guarded_local_uses", n_uses, 5)
+    rep.floor("guarded_local_uses", n_uses, 4)
 
     # ---- R03.3 -----------------------------------------------------------------------------------------------------------
     bt = ix.cls("BodyType")
@@ -288,12 +648,44 @@ def run(rep: Report, ctx: Any) -> str:
               lhs=sorted(members.values()), rhs=["content", "data", "files", "json"])
     btk = em.macros.get("body_to_kwarg")
     rep.require(btk, "body_to_kwarg")
-    branches = set()
-    for n in btk.find_all(nodes.Compare):
-        if expr_text(n.expr) == "body.body_type" and n.ops and isinstance(n.ops[0].expr, nodes.Const):
-            branches.add(n.ops[0].expr.value)
-    rep.check(branches == set(members.values()), "R03.3", "body_to_kwarg::branches", f"body_to_kwarg handles {sorted(branches)}, BodyType has "
-              f"{sorted(members.values())}", where=f"{PKG}/templates/{em.name}:{btk.lineno}", lhs=sorted(branches), rhs=sorted(members.values()))
+    rep.require(len(btk.args) >= 2, "body_to_kwarg(body, destination)")
+    bparam, dparam = btk.args[0].name, btk.args[1].name
+    BT = {f"{bparam}.body_type", f"{bparam}.body_type.value"}
+
+    def _is_member(member: str) -> Any:
+        """decides the tests that compare the body's type with constants, for a body of the given type (whatever the order of the
+        operands, `==` / `!=` / `in` / `not in`, the type held in a local or handed to a helper macro)"""
+        def known(t: nodes.Node, text_of: Any) -> bool | None:
+            if not isinstance(t, nodes.Compare) or len(t.ops) != 1:
+                return None
+            a, op, b = t.expr, t.ops[0].op, t.ops[0].expr
+            if op in ("eq", "ne") and text_of(b) in BT:
+                a, b = b, a
+            if text_of(a) not in BT:
+                return None
+            if op in ("eq", "ne") and isinstance(b, nodes.Const):
+                return (b.value == member) == (op == "eq")
+            if op in ("in", "notin") and isinstance(b, (nodes.List, nodes.Tuple)) and all(isinstance(x, nodes.Const) for x in b.items):
+                return (member in [x.value for x in b.items]) == (op == "in")
+            return None
+        return known
+
+    def _assigns_destination(ps: list[_Piece]) -> bool:
+        """the path writes `<destination> = ...` itself or hands the destination to a macro that does"""
+        for i, p in enumerate(ps):
+            if p.kind != "h":
+                continue
+            if _flat(p.text) == dparam and re.match(r"[ \t]*=(?!=)", _written(ps[i + 1:i + 3])):
+                return True
+            if any(len(a) == 1 and a[0].kind == "h" and _flat(a[0].text) == dparam for a in p.args):
+                return True
+        return False
+
+    # a body of every type is serialised: on some path through body_to_kwarg (and the macros of the same file it calls) that a body of
+    # this type can take, the destination is assigned.  A comparison with a value that is no member is dead text, not a defect.
+    handled = sorted(v for v in set(members.values()) if any(_assigns_destination(ps) for _, ps in _paths(em, btk, _is_member(v))))
+    rep.check(handled == sorted(set(members.values())), "R03.3", "body_to_kwarg::branches", f"body_to_kwarg assigns its destination for bodies of type "
+              f"{handled}, BodyType has {sorted(members.values())}", where=f"{PKG}/templates/{em.name}:{btk.lineno}", lhs=handled, rhs=sorted(members.values()))
     bfd = ix.func("bodies.body_from_data")
     body_calls = [c for c in ast.walk(bfd.node) if isinstance(c, ast.Call) and call_name(c) == "Body"]
     rep.require(body_calls, "Body(...) construction in body_from_data")
@@ -308,26 +700,54 @@ def run(rep: Report, ctx: Any) -> str:
                      if isinstance(n, ast.Attribute) and isinstance(n.value, ast.Name) and n.value.id == bt.name}
     rep.check(assigned == {f"BodyType.{k}" for k in members}, "R03.3", "body_from_data::assigns-every-member",
               f"media type branches assign {sorted(assigned)}", where(bfd, bfd.node), lhs=sorted(assigned), rhs=sorted(f"BodyType.{k}" for k in members))
-    # `body` is either the variable of the loop over endpoint.bodies or a local bound to endpoint.bodies[0] (canonical spellings)
-    BODY = ("endpoint.bodies[*]", "(endpoint.bodies[0])", "endpoint.bodies[0]")
-    kw = [f for f in tplq.frags(et.tree.body) if f.kind == "expr" and f.text in {b + ".body_type.value" for b in BODY}]
-    rep.check(len(kw) >= 2, "R03.3", "endpoint_module.py.jinja::kwargs-key-is-body-type", "_kwargs is not keyed by body.body_type.value",
-              where=f"{PKG}/templates/{et.name}")
-    cts = [f for f in tplq.frags(et.tree.body) if f.kind == "expr" and f.text in {b + ".content_type" for b in BODY}]
-    rep.check(len(cts) >= 2, "R03.3", "endpoint_module.py.jinja::content-type-from-body", "Content-Type is not taken from body.content_type",
-              where=f"{PKG}/templates/{et.name}")
-    # the Content-Type of the only body (bound to endpoint.bodies[0], not to the loop over several): never emitted for multipart
-    single = [f for f in cts if "[0]" in f.text]
+    # the places where the module serialises a body: the calls of body_to_kwarg(<body>, ...); <body> is whatever is serialised there (the
+    # variable of a loop over endpoint.bodies, endpoint.bodies[0], a local bound to either - the canonical text without its grouping)
+    mfr = list(tplq.frags(et.tree.body))
+    ser = [(f, _flat(expr_text(c.args[0]))) for f in mfr if f.kind == "expr" for c in [f.node, *f.node.find_all(nodes.Call)]
+           if isinstance(c, nodes.Call) and expr_text(c.node) == btk.name and c.args]
 
-    def _not_multipart(f: Any) -> bool:
-        for a in tplq.guard_atoms(f):
-            m = re.search(r" (ne|eq) ", a)
-            if m and ".content_type" in a and "'multipart/form-data'" in a and tplq.implies(f, a, m.group(1) == "ne"):
-                return True
-        return False
+    def _about(f: Any, b: str, attr: str) -> list[Any]:
+        """the emissions of <body>.<attr> that belong to the serialisation f of the body b (same loops)"""
+        return [k for k in mfr if k.kind == "expr" and _flat(k.text) == f"{b}.{attr}" and k.loops == f.loops]
 
-    rep.check(bool(single) and all(_not_multipart(f) for f in single), "R03.3", "endpoint_module.py.jinja::multipart-boundary",
-              "a single multipart body gets an explicit Content-Type (httpx must set the boundary)", where=f"{PKG}/templates/{et.name}")
+    def _multipart(env: dict, b: str) -> bool | None:
+        """what the guards say about <body>.content_type being multipart/form-data under env (None: nothing)"""
+        for atom, val in env.items():
+            m = re.fullmatch(rf"(?:{re.escape(b)}\.content_type (ne|eq) 'multipart/form-data'|'multipart/form-data' (ne|eq) {re.escape(b)}\.content_type)", _flat(atom))
+            if m:
+                return val == ((m.group(1) or m.group(2)) == "eq")
+        return None
+
+    def _only_body(ln: dict) -> bool:
+        """the endpoint may have exactly one body (its number of bodies is 1 or not constrained by the guards)"""
+        return ln.get("endpoint.bodies", 1) == 1
+
+    # whenever a body is serialised, the result is stored under its own body_type
+    rep.check(bool(ser) and all(any(_implication_counterexample(f, k) is None for k in _about(f, b, "body_type.value")) for f, b in ser),
+              "R03.3", "endpoint_module.py.jinja::kwargs-key-is-body-type", "_kwargs is not keyed by body.body_type.value wherever a body is serialised",
+              where=f"{PKG}/templates/{et.name}", lhs=[b for _, b in ser])
+    # whenever a body is serialised, its own content_type is written - except for the only body of an endpoint when it is multipart
+    no_ct = []
+    for f, b in ser:
+        cts = _about(f, b, "content_type")
+        for ln, env in _models(f, *cts):
+            if _holds(f, env, ln) and not any(_holds(c, env, ln) for c in cts) and not (_only_body(ln) and _multipart(env, b) is True):
+                no_ct.append((b, {**ln, **{k: v for k, v in env.items() if not _len_key(k) and not _coll_key(k)}}))
+                break
+    rep.check(bool(ser) and not no_ct, "R03.3", "endpoint_module.py.jinja::content-type-from-body", f"Content-Type is not taken from body.content_type "
+              f"(a body is serialised without it: {no_ct[:1]})", where=f"{PKG}/templates/{et.name}", lhs=no_ct[:2])
+    # the Content-Type of the only body of an endpoint is never written when it is multipart: httpx must set the boundary
+    explicit = []
+    n_ct = 0
+    for f, b in ser:
+        for c in _about(f, b, "content_type"):
+            n_ct += 1
+            for ln, env in _models(c):
+                if _holds(c, env, ln) and _only_body(ln) and _multipart(env, b) is not False:
+                    explicit.append((b, c.line))
+                    break
+    rep.check(n_ct > 0 and not explicit, "R03.3", "endpoint_module.py.jinja::multipart-boundary",
+              "a single multipart body gets an explicit Content-Type (httpx must set the boundary)", where=f"{PKG}/templates/{et.name}", lhs=explicit)
     for c in body_calls:
         loop = next((n for n in ast.walk(bfd.node) if isinstance(n, ast.For) and norm(n.iter).endswith(".items()") and any(x is c for x in ast.walk(n))), None)
         keyvar = norm(loop.target.elts[0]) if loop is not None and isinstance(loop.target, ast.Tuple) else None
@@ -358,9 +778,12 @@ def run(rep: Report, ctx: Any) -> str:
                   f"the Unset guard of header / dict-valued query statements is skipped under {[g for g in fr.guards]}",
                   where=f"{PKG}/templates/property_templates/helpers.jinja:{fr.line}", lhs=[g for g in fr.guards], rhs=f"implies {gprop}.required")
     rep.require(n_stm > 0, "guarded_statement emits its statement")
+    # every store keyed by a header's wire name is a statement handed to guarded_statement (one call or one per arm), none is written
+    # by header_params itself
     calls = [c for c in hp.find_all(nodes.Call) if expr_text(c.node) == "guarded_statement"]
-    rep.check(len(calls) == 1, "R03.4", "header_params::through-guarded_statement", "header stores do not go through guarded_statement",
-              where=f"{PKG}/templates/{em.name}")
+    direct = sorted(hole for (tn, mn, hole) in sites if (tn, mn) == (em.name, hp.name))
+    rep.check(bool(calls) and not direct, "R03.4", "header_params::through-guarded_statement", "header stores do not go through guarded_statement",
+              where=f"{PKG}/templates/{em.name}", lhs=direct)
     # the query store: entries are dropped after the fact by a comprehension over <store>.items()
     qp = em.macros.get("query_params")
     filters = []     # (fragment, condition, value variable)
@@ -401,7 +824,7 @@ def run(rep: Report, ctx: Any) -> str:
         rep.check(ti is not None and "transform_header" in ti.macros, "R03.5", f"{c.name}::transform_header",
                   f"{c.name} is allowed in headers, its Python type is `{tstr or 'computed'}`, but {tname} defines no transform_header: httpx "
                   "rejects non-str header values", where=f"{PKG}/templates/property_templates/{tname}", lhs=tstr, rhs="transform_header macro")
-    rep.floor("header_capable_kinds", n_h, 7)
+    rep.floor("header_capable_kinds", n_h, 4)
 
     # ---- R03.6 ---------------------------------------------------------------------------------------------------------------
     w = SkelWalker(jx, frozenset())
@@ -437,12 +860,33 @@ def run(rep: Report, ctx: Any) -> str:
 
     # ---- R03.7 ------------------------------------------------------------------------------------------------------------------
     efd = ix.func("Endpoint.from_data")
-    rep.check("requires_security=bool(data.security)" in norm(efd.node), "R03.7", "Endpoint.from_data::requires_security", "requires_security is not "
-              "derived from the operation's security", where(efd, efd.node))
+    # what is handed over as requires_security= (in from_data or a private helper of it), locals unfolded: as true as the operation's
+    # `security` (evaluated over None / empty / non-empty when it is an expression of `.security`, bool, len, not, and, or, comparisons
+    # alone; otherwise at least computed from `.security`)
+    sec = []
+    for g in region(ix, efd):
+        gl = Locals(g.node)
+        for c in calls_in(g.node):
+            for k in c.keywords:
+                if k.arg == "requires_security":
+                    t = _security_truth(k.value, gl)
+                    if t is None:
+                        t = any(isinstance(n, ast.Attribute) and n.attr == "security" for x in _sources(ix, g, k.value) for n in ast.walk(x))
+                    sec.append((norm(k.value), t))
+    rep.check(bool(sec) and all(t for _, t in sec), "R03.7", "Endpoint.from_data::requires_security", "requires_security is not "
+              "derived from the operation's security", where(efd, efd.node), lhs=[v for v, _ in sec], rhs="true exactly when <operation>.security is not empty")
     arg = em.macros.get("arguments")
-    fr = [f for f in tplq.frags(arg.body) if f.kind == "data" and "client: AuthenticatedClient," in f.text]
-    rep.check(bool(fr) and tplq.implies(fr[0], "endpoint.requires_security", True), "R03.7", "arguments::authenticated-client-when-secured",
-              "a secured operation does not demand an AuthenticatedClient", where=f"{PKG}/templates/{em.name}")
+    rep.require(arg, "arguments")
+    # what `arguments` writes for a secured operation, path by path (if / elif arms, conditional expressions, locals and helper macros
+    # alike): the annotation of the parameter `client` is AuthenticatedClient and nothing else
+    secured = []
+    for env, ps in _paths(em, arg):
+        if env.get(f"{arg.args[0].name}.requires_security" if arg.args else "") is not True:
+            continue
+        secured += [_annotation(m.group(1)) for m in re.finditer(r"(?<![\w.*])client[ \t]*:[ \t]*([^\n]*)", _written(ps))]
+    rep.check(bool(secured) and all(a == "AuthenticatedClient" for a in secured), "R03.7", "arguments::authenticated-client-when-secured",
+              "a secured operation does not demand an AuthenticatedClient", where=f"{PKG}/templates/{em.name}:{arg.lineno}",
+              lhs=sorted(set(secured)), rhs=["AuthenticatedClient"])
     rep.require("client.py.jinja" in jx.templates, "client.py.jinja")
     ac = _generated_class(jx, "client.py.jinja", "AuthenticatedClient")
     rep.require(ac is not None, "class AuthenticatedClient as written by client.py.jinja")
@@ -549,6 +993,6 @@ def run(rep: Report, ctx: Any) -> str:
         rep.check(both, "R03.9", f"Endpoint.add_parameters::identity[{n_id}]",
                   "a parameter is skipped / rejected by name alone: a path-item parameter with the same name in another location is lost",
                   where(ap, n), lhs=norm(n)[:100], rhs="comparison involves the name and the location")
-    rep.floor("parameter_identity_tests", n_id, 2)
+    rep.floor("parameter_identity_tests", n_id, 1)
     rep.not_decided += ["the bytes httpx actually sends"]
     return LEVEL
